@@ -413,6 +413,87 @@ theorem C16_umctl_counts_full_false :
     (countLoop true 48 2 100000000000000 0).iters = 1 := by
   decide +kernel
 
+/-! ## routing keys and runtime configuration -/
+
+theorem position_lt {c : UInt8} {b : Bytes} {i : Nat} (h : Um.Crc16.position c b = some i) : i < b.length := by
+  induction b generalizing i with
+  | nil => simp [Um.Crc16.position] at h
+  | cons x xs ih =>
+    unfold Um.Crc16.position at h
+    split at h
+    · simp only [Option.some.injEq] at h; subst h; simp
+    · cases hm : Um.Crc16.position c xs with
+      | none => simp [hm] at h
+      | some j =>
+        simp only [hm, Option.map_some, Option.some.injEq] at h
+        have := ih hm
+        subst h; simp; omega
+
+/-- **C16_hash_tag** — `get_hash_tag` as the tree has it is total: its final `expect` cannot fire for
+any byte string (any order and number of braces, empty key, any bytes), and what it returns is
+C09's `getHashTag`.  So `Command::new` cannot panic on a routing key. -/
+theorem C16_hash_tag (key : Bytes) :
+    hashTagChecked true key = some (Um.Crc16.getHashTag key) ∧
+    (∀ cmd, commandNewPanics true cmd = false) := by
+  have h1 : ∀ k, hashTagChecked true k = some (Um.Crc16.getHashTag k) := by
+    intro k
+    unfold hashTagChecked Um.Crc16.getHashTag
+    have hL : LBRACE = Um.Crc16.LBRACE := rfl
+    have hR : RBRACE = Um.Crc16.RBRACE := rfl
+    rw [hL, hR]
+    cases hb : Um.Crc16.position Um.Crc16.LBRACE k with
+    | none => rfl
+    | some b =>
+      have hbl := position_lt hb
+      simp only [if_true]
+      cases he : Um.Crc16.position Um.Crc16.RBRACE (k.drop (b + 1)) with
+      | none => rfl
+      | some e =>
+        have hel := position_lt he
+        simp only [List.length_drop] at hel
+        simp only
+        split
+        · rfl
+        · unfold sliceOpt
+          have : b + 1 ≤ b + 1 + e ∧ b + 1 + e ≤ k.length := by omega
+          simp only [this, and_self, if_true]
+          congr 2; omega
+  refine ⟨h1 key, ?_⟩
+  intro cmd
+  unfold commandNewPanics
+  cases cmd.bind routingKey with
+  | none => rfl
+  | some k => simp [h1 k]
+
+/-- the `memchr` shape (first `}` of the whole key): `}{`, `a}b{c`, `user}1{x}` make the `expect` fire -/
+theorem C16_hash_tag_full_false :
+    hashTagChecked false (str "}{") = none ∧ hashTagChecked false (str "a}b{c") = none ∧
+    hashTagChecked false (str "user}1{x}") = none ∧
+    commandNewPanics false (some [bulk "GET", bulk "}{"]) = true ∧
+    commandNewPanics false (some [bulk "EVAL", bulk "s", bulk "1", bulk "a}b{c"]) = true ∧
+    hashTagChecked false (str "{user1000}.following") = some (str "user1000") := by
+  decide +kernel
+
+/-- **C16_rate_limiter** — with the per-request clamp the limiter's decision is defined for every
+value a client can store with `CONFIG SET slowlog_sample_rate` (0 included) and every request count. -/
+theorem C16_rate_limiter (st : ConfStore) (field value : Bytes) (count : Nat) :
+    (limiterDecision true (configSet st field value).1.sampleRate count).isSome = true := by
+  unfold limiterDecision
+  simp only [if_true]
+  have : max 1 (configSet st field value).1.sampleRate ≠ 0 := by omega
+  simp [this]
+
+/-- without the clamp `CONFIG SET slowlog_sample_rate 0` (answered `+OK`) leaves every later request of
+every session with `count % 0` -/
+theorem C16_rate_limiter_full_false :
+    (configSet {} (str "slowlog_sample_rate") (str "0")) = (⟨0, 50000⟩, true) ∧
+    (configSet {} (str "SLOWLOG_SAMPLE_RATE") (str "+0")).1.sampleRate = 0 ∧
+    limiterDecision false 0 7 = none ∧
+    (configSet {} (str "slowlog_sample_rate") (str "-0")).2 = false ∧
+    (configSet {} (str "slowlog_len") (str "5")).2 = false ∧
+    (configSet {} (str "slowlog_log_slower_than") (str "-9223372036854775808")) = (⟨1000, -9223372036854775808⟩, true) := by
+  decide +kernel
+
 /-! ## the current tree
 
 The statements above are per variant; these instantiate the full ones at what the extractor found
@@ -462,6 +543,13 @@ theorem C16_control_plane_cur :
     (∀ elem per n avail,
       (countLoop Um.Gen.Hostile.umctlCountPrealloc elem per n avail).allocBytes elem ≤ 4 * elem * (avail + 1)) :=
   ⟨fun name h => C16_node_id name h, fun elem per n avail => (C16_umctl_counts elem per n avail).2⟩
+
+/-- routing keys and the rate limiter at the switch values read from the source -/
+theorem C16_keys_config_cur :
+    (∀ cmd, commandNewPanics Um.Gen.Hostile.hashTagEndAfterBegin cmd = false) ∧
+    (∀ st field value count,
+      (limiterDecision Um.Gen.Hostile.rateLimiterClamped (configSet st field value).1.sampleRate count).isSome = true) :=
+  ⟨fun cmd => (C16_hash_tag []).2 cmd, fun st field value count => C16_rate_limiter st field value count⟩
 
 /-- the regression inputs of the seven findings, on the current tree -/
 theorem C16_regressions_cur :
